@@ -13,6 +13,7 @@ class RateLimiter(ABC):
         self.limit_bps: int = limit_bps
         self.bucket: int = 0
         self.last_refill: float = 0.0
+        self._full_until: float = 0.0
 
     @classmethod
     def create_limiter(cls, limit_kbps: int) -> RateLimiter:
@@ -82,12 +83,14 @@ class LimitedRateLimiter(RateLimiter):
         return self.bucket < self.MIN_BUCKET_SIZE
 
     def refill(self) -> bool:
+        current_time = time.monotonic()
         if self.limit_bps == self.bucket:
+            # Time spent with a full bucket should not be credited afterwards
+            self._full_until = current_time
             return False
 
-        current_time = time.monotonic()
         if self.bucket < self.limit_bps:
-            time_passed = current_time - self.last_refill
+            time_passed = current_time - max(self.last_refill, self._full_until)
             new_tokens = (self.limit_bps - self.bucket) * time_passed
             self.add_tokens(int(new_tokens))
 
@@ -112,3 +115,4 @@ class LimitedRateLimiter(RateLimiter):
     def copy_tokens(self, other: RateLimiter):
         self.add_tokens(other.bucket)
         self.last_refill = other.last_refill
+        self._full_until = other._full_until
